@@ -6,7 +6,7 @@ from props.fam_l2 import l2_module
 def build(tier, seed):
     mods = [l2_module("C20", tier)]
 
-    model_names = ['plain', 'rename', 'nested', 'nested2', 'forbid_nested', 'kwargs', 'rest_field_rename', 'saturator', 'as_list_forbid', 'list_gaps', 'list_in_dict', 'dict_in_list', 'pairs_map'] if tier == "quick" else list(MEMBERS)
+    model_names = ['plain', 'rename', 'nested', 'nested2', 'forbid_nested', 'kwargs', 'rest_field_rename', 'saturator', 'as_list_forbid', 'list_gaps', 'list_in_dict', 'dict_in_list', 'pairs_map', 'req_two_crowns', 'req_three_levels'] if tier == "quick" else list(MEMBERS)
     for name in model_names:
         mm = member_module("C20", name)
         for sl, pre in load_slices(name, allow_bug=False).items():
